@@ -15,61 +15,21 @@
 //! registration order (0 = default app), idx = position of the route among the routes of that kind of that
 //! sub-app in registration order. HTTP miss = status 404; WebSocket miss = connection closed without a byte
 //! (or any non-101 HTTP answer: the property only says "closed without an upgrade").
-use hv::util::*;
+use hv::util;
 use humphrey::http::{Request, Response, StatusCode};
 use humphrey::stream::Stream;
 use humphrey::{App, SubApp};
-use serde_json::{json, Value};
-use std::collections::VecDeque;
-use std::io::{Read, Write};
-use std::net::{SocketAddr, TcpListener, TcpStream};
+use std::io::Write;
+use std::net::{SocketAddr, TcpStream};
 use std::sync::mpsc::{channel, Sender};
-use std::sync::{Arc, Mutex};
+use std::sync::Arc;
 use std::thread::{self, JoinHandle};
 use std::time::{Duration, Instant};
 
-// ------------------------------------------------------------------------------------------------
-// configuration of an app as a sequence of registration calls
-// ------------------------------------------------------------------------------------------------
-#[derive(Clone, Debug)]
-enum SubOp {
-    Route(String),
-    Ws(String),
-}
-#[derive(Clone, Debug)]
-enum Op {
-    Route(String),
-    Ws(String),
-    Host(String, Vec<SubOp>),
-}
+#[path = "routing_common/mod.rs"]
+mod common;
+use common::{free_port, ident, Op, Server, SubOp};
 
-#[derive(Clone, Debug)]
-struct Rq {
-    ws: bool,
-    hostp: bool,
-    host: String,
-    target: String,
-}
-
-#[derive(Clone, Debug, PartialEq)]
-enum Got {
-    Hit(usize, usize),
-    Miss,
-    Other(String),
-}
-
-fn syms(v: &Value) -> String {
-    v.as_array().map(|a| a.iter().map(|s| s.as_str().unwrap_or("")).collect()).unwrap_or_default()
-}
-fn unsyms(s: &str) -> Value {
-    Value::Array(s.chars().map(|c| Value::String(c.to_string())).collect())
-}
-
-fn ident(tag: &str, sub: usize, idx: usize, kind: &str) -> String {
-    format!("R|{}|{}|{}|{}", tag, sub, idx, kind)
-}
-
-/// Registers one HTTP route on a sub-app, cycling through the three registration entry points
 /// (they all push onto the same `routes` vector).
 fn sub_http(sub: SubApp<()>, p: &str, id: String, which: usize) -> SubApp<()> {
     match which % 3 {
@@ -118,6 +78,36 @@ fn build(ops: &[Op], tag: &str, threads: usize) -> (App<()>, Sender<()>) {
                     let _ = stream.flush();
                 });
             }
+            Op::DefSub(subops) => {
+                // the new default sub-app starts its own numbering
+                let mut sub: SubApp<()> = SubApp::new();
+                dh = 0;
+                dw = 0;
+                for so in subops {
+                    match so {
+                        SubOp::Route(p) => {
+                            dh += 1;
+                            sub = sub_http(sub, p, ident(tag, 0, dh, "http"), dh);
+                        }
+                        SubOp::Ws(p) => {
+                            dw += 1;
+                            sub = sub_ws(sub, p, ident(tag, 0, dw, "ws"));
+                        }
+                    }
+                }
+                app = app.with_default_subapp(sub);
+            }
+            Op::WsAll => {
+                dw += 1;
+                let id = ident(tag, 0, dw, "ws");
+                #[allow(deprecated)]
+                {
+                    app = app.with_websocket_handler(move |_r: Request, mut stream: Stream, _s: Arc<()>| {
+                        let _ = stream.write_all(id.as_bytes());
+                        let _ = stream.flush();
+                    });
+                }
+            }
             Op::Host(h, subops) => {
                 nh += 1;
                 let mut sub: SubApp<()> = SubApp::new();
@@ -150,11 +140,9 @@ struct Running {
     handle: JoinHandle<bool>,
 }
 
-fn free_port() -> u16 {
-    let l = TcpListener::bind("127.0.0.1:0").expect("bind 127.0.0.1:0");
-    l.local_addr().unwrap().port()
-}
 
+impl Server for Running {
+const FULL_API: bool = true;
 fn start(ops: &[Op], tag: &str) -> Result<Running, String> {
     for _attempt in 0..8 {
         let port = free_port();
@@ -188,8 +176,13 @@ fn start(ops: &[Op], tag: &str) -> Result<Running, String> {
     Err("could not start the app on a loopback port".into())
 }
 
+fn port(&self) -> u16 {
+    self.port
+}
+
 /// Stops the app through its shutdown receiver. Returns false when App::run did not return within 10 s.
-fn stop(r: Running) -> bool {
+fn stop(self) -> bool {
+    let r = self;
     let _ = r.tx.send(());
     let deadline = Instant::now() + Duration::from_secs(10);
     while !r.handle.is_finished() && Instant::now() < deadline {
@@ -203,694 +196,8 @@ fn stop(r: Running) -> bool {
     }
 }
 
-// ------------------------------------------------------------------------------------------------
-// raw TCP client
-// ------------------------------------------------------------------------------------------------
-struct Conn {
-    s: TcpStream,
-    buf: Vec<u8>,
-}
-
-fn connect(port: u16) -> Result<Conn, String> {
-    let sa: SocketAddr = format!("127.0.0.1:{}", port).parse().unwrap();
-    let s = TcpStream::connect_timeout(&sa, Duration::from_secs(5)).map_err(|e| format!("connect: {}", e))?;
-    let _ = s.set_read_timeout(Some(Duration::from_secs(8)));
-    let _ = s.set_write_timeout(Some(Duration::from_secs(8)));
-    let _ = s.set_nodelay(true);
-    Ok(Conn { s, buf: Vec::new() })
-}
-
-fn find(hay: &[u8], needle: &[u8]) -> Option<usize> {
-    hay.windows(needle.len()).position(|w| w == needle)
-}
-
-/// Reads one response (status, body). `head_only`: stop after the header block.
-fn read_response(c: &mut Conn, head_only: bool) -> Result<(u16, Vec<u8>), String> {
-    let mut tmp = [0u8; 4096];
-    loop {
-        // a response serialised by humphrey is followed by CRLF after a non-empty body (known C01/C07 finding):
-        // skip blank lines before a status line
-        while c.buf.starts_with(b"\r\n") {
-            c.buf.drain(0..2);
-        }
-        if let Some(he) = find(&c.buf, b"\r\n\r\n") {
-            let head = String::from_utf8_lossy(&c.buf[..he]).to_string();
-            let mut lines = head.split("\r\n");
-            let status_line = lines.next().unwrap_or("");
-            let status: u16 = status_line.split(' ').nth(1).and_then(|s| s.parse().ok()).ok_or(format!("bad status line {:?}", status_line))?;
-            if head_only {
-                return Ok((status, vec![]));
-            }
-            let mut cl: Option<usize> = None;
-            for l in lines {
-                if let Some((k, v)) = l.split_once(':') {
-                    if k.trim().eq_ignore_ascii_case("content-length") {
-                        cl = v.trim().parse().ok();
-                    }
-                }
-            }
-            let cl = cl.ok_or("response without Content-Length".to_string())?;
-            let need = he + 4 + cl;
-            while c.buf.len() < need {
-                let n = c.s.read(&mut tmp).map_err(|e| format!("read body: {}", e))?;
-                if n == 0 {
-                    return Err("eof inside body".into());
-                }
-                c.buf.extend_from_slice(&tmp[..n]);
-            }
-            let body = c.buf[he + 4..need].to_vec();
-            c.buf.drain(0..need);
-            return Ok((status, body));
-        }
-        let n = c.s.read(&mut tmp).map_err(|e| format!("read: {}", e))?;
-        if n == 0 {
-            return Err(format!("eof before a complete response ({} bytes)", c.buf.len()));
-        }
-        c.buf.extend_from_slice(&tmp[..n]);
-    }
-}
-
-fn parse_ident(body: &[u8], tag: &str, kind: &str) -> Got {
-    let s = String::from_utf8_lossy(body).to_string();
-    let parts: Vec<&str> = s.split('|').collect();
-    if parts.len() == 5 && parts[0] == "R" {
-        if parts[1] != tag {
-            return Got::Other(format!("FOREIGN identity {}", s));
-        }
-        if parts[4] != kind {
-            return Got::Other(format!("handler of the other kind answered: {}", s));
-        }
-        if let (Ok(a), Ok(b)) = (parts[2].parse(), parts[3].parse()) {
-            return Got::Hit(a, b);
-        }
-    }
-    Got::Other(format!("unexpected body {:?}", s.chars().take(80).collect::<String>()))
-}
-
-const OTHER_HOSTS: [&str; 3] = ["c.y", "a.x", "zz.x:8"];
-
-/// HTTP request variants (everything the property says the choice does NOT depend on):
-/// 0 GET keep-alive; 1 POST with a body, more headers, lower-case header name, keep-alive;
-/// 2 GET HTTP/1.0, Connection: close on a fresh connection, no space after `Host:`;
-/// 3 OPTIONS on a fresh connection (only hit/miss is observable: 204 / 404).
-fn http_once(port: u16, keep: &mut Option<Conn>, rq: &Rq, variant: usize, tag: &str) -> Got {
-    let mut req = String::new();
-    let (method, version) = match variant {
-        1 => ("POST", "HTTP/1.1"),
-        2 => ("GET", "HTTP/1.0"),
-        3 => ("OPTIONS", "HTTP/1.1"),
-        _ => ("GET", "HTTP/1.1"),
-    };
-    req.push_str(&format!("{} {} {}\r\n", method, rq.target, version));
-    if variant == 1 {
-        req.push_str("Accept: */*\r\n");
-        req.push_str(&format!("X-Forwarded-Host: {}\r\n", OTHER_HOSTS[rq.target.len() % 3]));
-        req.push_str("Referer: http://c.y/a/b?x/b\r\n");
-    }
-    if rq.hostp {
-        match variant {
-            1 => req.push_str(&format!("host: {}\r\n", rq.host)),
-            2 => req.push_str(&format!("Host:{}\r\n", rq.host)),
-            _ => req.push_str(&format!("Host: {}\r\n", rq.host)),
-        }
-    }
-    if variant == 1 {
-        req.push_str("X-Original-URL: /a/b\r\nUser-Agent: routing-harness\r\n");
-    }
-    let fresh = variant >= 2;
-    if fresh {
-        req.push_str("Connection: close\r\n");
-    } else {
-        req.push_str("Connection: keep-alive\r\n");
-    }
-    if variant == 1 {
-        req.push_str("Content-Length: 3\r\n\r\nabc");
-    } else {
-        req.push_str("\r\n");
-    }
-    for attempt in 0..2 {
-        let mut own: Option<Conn> = None;
-        let conn: &mut Option<Conn> = if fresh { &mut own } else { &mut *keep };
-        if conn.is_none() {
-            match connect(port) {
-                Ok(c) => *conn = Some(c),
-                Err(e) => return Got::Other(e),
-            }
-        }
-        let c = conn.as_mut().unwrap();
-        let r = c.s.write_all(req.as_bytes()).map_err(|e| format!("write: {}", e)).and_then(|_| read_response(c, variant == 3));
-        match r {
-            Ok((status, body)) => {
-                if variant == 3 {
-                    return match status {
-                        204 => Got::Hit(usize::MAX, usize::MAX), // some handler matched (identity not observable)
-                        404 => Got::Miss,
-                        s => Got::Other(format!("OPTIONS answered {}", s)),
-                    };
-                }
-                return match status {
-                    200 => parse_ident(&body, tag, "http"),
-                    404 => Got::Miss,
-                    s => Got::Other(format!("status {}", s)),
-                };
-            }
-            Err(e) => {
-                *conn = None;
-                // a kept connection may have been closed by the server between requests: retry once on a new one
-                if attempt == 1 || fresh {
-                    return Got::Other(e);
-                }
-            }
-        }
-    }
-    Got::Other("unreachable".into())
-}
-
-/// WebSocket upgrade request; variant 1 adds headers and writes the header name in lower case.
-fn ws_once(port: u16, rq: &Rq, variant: usize, tag: &str) -> Got {
-    let mut req = format!("GET {} HTTP/1.1\r\n", rq.target);
-    if variant == 1 {
-        req.push_str(&format!("Origin: http://{}\r\nX-Forwarded-Host: {}\r\n", OTHER_HOSTS[rq.target.len() % 3], OTHER_HOSTS[(rq.target.len() + 1) % 3]));
-    }
-    if rq.hostp {
-        if variant == 1 {
-            req.push_str(&format!("host: {}\r\n", rq.host));
-        } else {
-            req.push_str(&format!("Host: {}\r\n", rq.host));
-        }
-    }
-    req.push_str("Upgrade: websocket\r\nConnection: Upgrade\r\nSec-WebSocket-Key: dGhlIHNhbXBsZSBub25jZQ==\r\nSec-WebSocket-Version: 13\r\n\r\n");
-    let mut c = match connect(port) {
-        Ok(c) => c,
-        Err(e) => return Got::Other(e),
-    };
-    if let Err(e) = c.s.write_all(req.as_bytes()) {
-        return Got::Other(format!("write: {}", e));
-    }
-    let mut out = Vec::new();
-    let mut tmp = [0u8; 1024];
-    loop {
-        match c.s.read(&mut tmp) {
-            Ok(0) => break,
-            Ok(n) => {
-                out.extend_from_slice(&tmp[..n]);
-                if out.len() > 4096 {
-                    break;
-                }
-            }
-            Err(e) => {
-                if e.kind() == std::io::ErrorKind::ConnectionReset && out.is_empty() {
-                    break; // closed without a byte
-                }
-                return Got::Other(format!("ws read: {} after {} bytes", e, out.len()));
-            }
-        }
-    }
-    if out.is_empty() {
-        return Got::Miss;
-    }
-    if out.starts_with(b"R|") {
-        return parse_ident(&out, tag, "ws");
-    }
-    if out.starts_with(b"HTTP/") {
-        let st = String::from_utf8_lossy(&out).split(' ').nth(1).and_then(|s| s.parse::<u16>().ok());
-        return match st {
-            Some(101) => Got::Other("upgrade (101) without handler identity".into()),
-            Some(_) => Got::Miss, // answered without an upgrade and closed
-            None => Got::Other("unparsable answer".into()),
-        };
-    }
-    Got::Other(format!("unexpected bytes {:?}", String::from_utf8_lossy(&out).chars().take(60).collect::<String>()))
-}
-
-/// One request with retries for transport trouble only (time-outs, resets under machine load): a wrong handler,
-/// a wrong status or unexpected bytes are never retried.
-fn ask(port: u16, keep: &mut Option<Conn>, rq: &Rq, variant: usize, tag: &str, flaky: &mut u64) -> Got {
-    let mut got = Got::Other("unreachable".into());
-    for attempt in 0..3 {
-        got = if rq.ws { ws_once(port, rq, variant % 2, tag) } else { http_once(port, keep, rq, variant, tag) };
-        match &got {
-            Got::Other(e) if e.starts_with("read") || e.starts_with("write") || e.starts_with("eof") || e.starts_with("ws read") || e.starts_with("connect") => {
-                if attempt < 2 {
-                    *flaky += 1;
-                    *keep = None;
-                    thread::sleep(Duration::from_millis(200));
-                }
-            }
-            _ => break,
-        }
-    }
-    got
-}
-
-fn got_json(g: &Got) -> Value {
-    match g {
-        Got::Hit(s, j) if *s == usize::MAX => json!({"hit": true, "sub": -2, "idx": -2, "note": "OPTIONS: matched"}),
-        Got::Hit(s, j) => json!({"hit": true, "sub": s, "idx": j}),
-        Got::Miss => json!({"hit": false, "sub": 0, "idx": 0}),
-        Got::Other(e) => json!({"hit": false, "sub": -1, "idx": -1, "note": e}),
-    }
-}
-
-fn rq_json(r: &Rq) -> Value {
-    json!({"kind": if r.ws { "ws" } else { "http" }, "host": if r.hostp { json!(r.host) } else { Value::Null }, "target": r.target})
-}
-
-// ------------------------------------------------------------------------------------------------
-// replay of TLC vectors
-// ------------------------------------------------------------------------------------------------
-struct Job {
-    idx: usize,
-    app: Value,
-    ops: Vec<Op>,
-    exp: Vec<(usize, usize)>,
-}
-
-fn ops_from_app(app: &Value, order: usize) -> Vec<Op> {
-    let mut hosts: Vec<Op> = vec![];
-    for s in app["hosts"].as_array().cloned().unwrap_or_default() {
-        let http: Vec<SubOp> = s["http"].as_array().unwrap().iter().map(|p| SubOp::Route(syms(p))).collect();
-        let ws: Vec<SubOp> = s["ws"].as_array().unwrap().iter().map(|p| SubOp::Ws(syms(p))).collect();
-        let mut so = vec![];
-        if order % 2 == 0 {
-            so.extend(http);
-            so.extend(ws);
-        } else {
-            // alternate the two kinds; the order inside each kind is the registration order
-            let (mut a, mut b) = (http.into_iter(), ws.into_iter());
-            loop {
-                let (x, y) = (b.next(), a.next());
-                if x.is_none() && y.is_none() {
-                    break;
-                }
-                so.extend(x);
-                so.extend(y);
-            }
-        }
-        hosts.push(Op::Host(syms(&s["host"]), so));
-    }
-    let mut def: Vec<Op> = app["def"]["http"].as_array().unwrap().iter().map(|p| Op::Route(syms(p))).collect();
-    def.extend(app["def"]["ws"].as_array().unwrap().iter().map(|p| Op::Ws(syms(p))));
-    let mut ops = vec![];
-    match order % 3 {
-        0 => {
-            ops.extend(hosts);
-            ops.extend(def);
-        }
-        1 => {
-            ops.extend(def);
-            ops.extend(hosts);
-        }
-        _ => {
-            let (mut a, mut b) = (hosts.into_iter(), def.into_iter());
-            loop {
-                let (x, y) = (b.next(), a.next());
-                if x.is_none() && y.is_none() {
-                    break;
-                }
-                ops.extend(x);
-                ops.extend(y);
-            }
-        }
-    }
-    ops
-}
-
-#[derive(Default)]
-struct Tally {
-    apps: u64,
-    requests: u64,
-    evaluations: u64,
-    mismatches: u64,
-    tool_errors: u64,
-    unstopped: u64,
-    flaky: u64,
-    first: Vec<Value>,
-    samples: Vec<Value>,
-}
-
-fn replay(all_variants: bool, workers: usize) {
-    let mut reqs: Vec<Rq> = vec![];
-    let mut jobs: VecDeque<Job> = VecDeque::new();
-    for line in stdin_lines() {
-        let v: Value = match serde_json::from_str(&line) {
-            Ok(v) => v,
-            Err(_) => continue,
-        };
-        if let Some(rs) = v.get("reqs").and_then(|r| r.as_array()) {
-            reqs = rs
-                .iter()
-                .map(|r| Rq { ws: r["kind"] == "ws", hostp: r["hostp"].as_bool().unwrap(), host: syms(&r["host"]), target: syms(&r["target"]) })
-                .collect();
-        } else if v.get("app").is_some() {
-            let idx = jobs.len();
-            let exp: Vec<(usize, usize)> = v["exp"].as_array().unwrap().iter().map(|e| (e[0].as_u64().unwrap() as usize, e[1].as_u64().unwrap() as usize)).collect();
-            let ops = ops_from_app(&v["app"], idx);
-            jobs.push_back(Job { idx, app: v["app"].clone(), ops, exp });
-        }
-    }
-    let reqs = Arc::new(reqs);
-    let jobs = Arc::new(Mutex::new(jobs));
-    let tally = Arc::new(Mutex::new(Tally::default()));
-    let mut hs = vec![];
-    for _w in 0..workers {
-        let (reqs, jobs, tally) = (reqs.clone(), jobs.clone(), tally.clone());
-        hs.push(thread::spawn(move || loop {
-            let job = match jobs.lock().unwrap().pop_front() {
-                Some(j) => j,
-                None => break,
-            };
-            let tag = format!("A{}", job.idx);
-            let run = match start(&job.ops, &tag) {
-                Ok(r) => r,
-                Err(_) => {
-                    tally.lock().unwrap().tool_errors += 1;
-                    continue;
-                }
-            };
-            let mut keep: Option<Conn> = None;
-            let mut local = Tally::default();
-            local.apps = 1;
-            for (ri, rq) in reqs.iter().enumerate() {
-                if ri >= job.exp.len() {
-                    break;
-                }
-                local.requests += 1;
-                let exp = job.exp[ri];
-                let variants: Vec<usize> = if rq.ws {
-                    if all_variants { vec![0, 1] } else { vec![(job.idx + ri / 2) % 2] }
-                } else if all_variants {
-                    vec![0, 1, 2, 3]
-                } else if (job.idx + ri) % 7 == 0 {
-                    vec![(job.idx + ri / 2) % 3, 3]
-                } else {
-                    vec![(job.idx + ri / 2) % 3]
-                };
-                for v in variants {
-                    let got = ask(run.port, &mut keep, rq, v, &tag, &mut local.flaky);
-                    local.evaluations += 1;
-                    let ok = match (&got, exp) {
-                        (Got::Miss, (0, 0)) => true,
-                        (Got::Hit(s, _), (_, j)) if *s == usize::MAX => j != 0,
-                        (Got::Hit(s, j), (es, ej)) => ej != 0 && *s == es && *j == ej,
-                        _ => false,
-                    };
-                    if let Got::Other(e) = &got {
-                        if e.starts_with("FOREIGN") || e.starts_with("connect") {
-                            local.tool_errors += 1;
-                            continue;
-                        }
-                    }
-                    if !ok {
-                        local.mismatches += 1;
-                        if local.first.len() < 10 {
-                            local.first.push(json!({"app_index": job.idx, "app": job.app, "request_index": ri + 1, "request": rq_json(rq),
-                                "variant": v, "expected": [exp.0, exp.1], "got": got_json(&got)}));
-                        }
-                    } else if local.samples.len() < 2 && exp.1 != 0 && v == 0 && ri % 37 == job.idx % 37 {
-                        local.samples.push(json!({"app": job.app, "request": rq_json(rq), "handler": [exp.0, exp.1]}));
-                    }
-                }
-            }
-            drop(keep);
-            if !stop(run) {
-                local.unstopped += 1;
-            }
-            let mut t = tally.lock().unwrap();
-            t.apps += local.apps;
-            t.requests += local.requests;
-            t.evaluations += local.evaluations;
-            t.mismatches += local.mismatches;
-            t.tool_errors += local.tool_errors;
-            t.unstopped += local.unstopped;
-            t.flaky += local.flaky;
-            for f in local.first {
-                if t.first.len() < 40 {
-                    t.first.push(f);
-                }
-            }
-            for s in local.samples {
-                if t.samples.len() < 6 {
-                    t.samples.push(s);
-                }
-            }
-        }));
-    }
-    for h in hs {
-        let _ = h.join();
-    }
-    let t = tally.lock().unwrap();
-    out_line(&json!({"summary": true, "apps": t.apps, "requests": t.requests, "evaluations": t.evaluations, "mismatches": t.mismatches,
-        "tool_errors": t.tool_errors, "unstopped": t.unstopped, "transport_retries": t.flaky, "first": t.first, "samples": t.samples}));
-}
-
-// ------------------------------------------------------------------------------------------------
-// random apps, logged for Trace_Routing.tla
-// ------------------------------------------------------------------------------------------------
-fn rand_path(rng: &mut Rng) -> String {
-    let segs = ["a", "b", "c", "ab", "aab", "a.b", "*"];
-    let depth = rng.range(0, 3);
-    let mut s = String::new();
-    for _ in 0..depth {
-        s.push('/');
-        // a literal `*` segment is rare
-        let k = if rng.chance(1, 12) { 6 } else { rng.below(6) };
-        s.push_str(segs[k]);
-    }
-    if depth == 0 || rng.chance(1, 6) {
-        s.push('/');
-    }
-    s
-}
-
-/// A pattern derived from a text: random spans replaced by `*` (sometimes `**`), sometimes perturbed.
-fn pattern_from(rng: &mut Rng, text: &str) -> String {
-    let t: Vec<char> = text.chars().collect();
-    let mut p = String::new();
-    let mut i = 0;
-    let density = rng.range(0, 3); // 0: literal
-    while i < t.len() {
-        if density > 0 && rng.chance(density, 6) {
-            p.push('*');
-            if rng.chance(1, 5) {
-                p.push('*');
-            }
-            i += rng.below(4);
-        } else {
-            p.push(t[i]);
-            i += 1;
-        }
-    }
-    if density > 0 && rng.chance(1, 4) {
-        p.push('*');
-    }
-    if rng.chance(1, 8) && !p.is_empty() {
-        // perturb: drop or change one character (mostly no longer matches)
-        let mut cs: Vec<char> = p.chars().collect();
-        let k = rng.below(cs.len());
-        if rng.chance(1, 2) {
-            cs.remove(k);
-        } else {
-            cs[k] = *rng.pick(&['a', 'b', '/', '*']);
-        }
-        p = cs.into_iter().collect();
-    }
-    p
-}
-
-const HOST_POOL: [&str; 9] = ["a.x", "b.x", "a.b.x", "c.y", "a.x:8", "b.x:8", "localhost", "x", "127.0.0.1:8"];
-
-fn rand_app(rng: &mut Rng) -> (Vec<Op>, Vec<String>, Vec<&'static str>) {
-    let pool: Vec<String> = (0..rng.range(3, 6)).map(|_| rand_path(rng)).collect();
-    // the Host values this app is mostly asked for; its host patterns are derived from them
-    let hpool: Vec<&'static str> = (0..rng.range(2, 4)).map(|_| *rng.pick(&HOST_POOL)).collect();
-    let route = |rng: &mut Rng| -> String {
-        match rng.below(30) {
-            0 => "*".to_string(),
-            1 => "/*".to_string(),
-            _ => {
-                let base = rng.pick(&pool).clone();
-                pattern_from(rng, &base)
-            }
-        }
-    };
-    let sub_ops = |rng: &mut Rng| -> Vec<SubOp> {
-        let nh = rng.range(0, 6);
-        let nw = rng.range(0, 6);
-        let mut h: VecDeque<SubOp> = (0..nh).map(|_| SubOp::Route(route(rng))).collect();
-        let mut w: VecDeque<SubOp> = (0..nw).map(|_| SubOp::Ws(route(rng))).collect();
-        // duplicates: the first registration must keep winning
-        if h.len() >= 2 && rng.chance(1, 4) {
-            let d = h[0].clone();
-            h.push_back(d);
-            h.truncate(6);
-        }
-        let mut out = vec![];
-        while !h.is_empty() || !w.is_empty() {
-            if w.is_empty() || (!h.is_empty() && rng.chance(1, 2)) {
-                out.push(h.pop_front().unwrap());
-            } else {
-                out.push(w.pop_front().unwrap());
-            }
-        }
-        out
-    };
-    let nhosts = rng.range(0, 4);
-    let mut hosts: VecDeque<Op> = VecDeque::new();
-    for _ in 0..nhosts {
-        let mut hp;
-        loop {
-            let base = if rng.chance(5, 6) { *rng.pick(&hpool) } else { *rng.pick(&HOST_POOL) };
-            hp = pattern_from(rng, base);
-            if hp != "*" && !hp.is_empty() {
-                break;
-            }
-        }
-        hosts.push_back(Op::Host(hp, sub_ops(rng)));
-    }
-    if hosts.len() >= 2 && rng.chance(1, 5) {
-        // the same host pattern twice
-        if let Op::Host(h0, _) = hosts[0].clone() {
-            let so = sub_ops(rng);
-            let k = hosts.len() - 1;
-            hosts[k] = Op::Host(h0, so);
-        }
-    }
-    let mut def: VecDeque<Op> = sub_ops(rng)
-        .into_iter()
-        .map(|s| match s {
-            SubOp::Route(p) => Op::Route(p),
-            SubOp::Ws(p) => Op::Ws(p),
-        })
-        .collect();
-    let mut ops = vec![];
-    while !hosts.is_empty() || !def.is_empty() {
-        if def.is_empty() || (!hosts.is_empty() && rng.chance(1, 2)) {
-            ops.push(hosts.pop_front().unwrap());
-        } else {
-            ops.push(def.pop_front().unwrap());
-        }
-    }
-    (ops, pool, hpool)
-}
-
-fn rand_req(rng: &mut Rng, pool: &[String], hpool: &[&'static str]) -> Rq {
-    let mut target = if rng.chance(4, 5) { rng.pick(pool).clone() } else { rand_path(rng) };
-    if rng.chance(1, 6) {
-        // near miss: one more / one less character
-        if rng.chance(1, 2) {
-            target.push(*rng.pick(&['a', 'b', '/']));
-        } else if target.len() > 1 {
-            target.pop();
-        }
-    }
-    if rng.chance(2, 5) {
-        let q = match rng.below(4) {
-            0 => "?".to_string(),
-            1 => "?x=1".to_string(),
-            2 => format!("?{}", rng.pick(pool)),
-            _ => "?a?b".to_string(),
-        };
-        target.push_str(&q);
-    }
-    let hostp = !rng.chance(1, 7);
-    let host = if !hostp {
-        String::new()
-    } else if rng.chance(3, 4) {
-        rng.pick(hpool).to_string()
-    } else {
-        rng.pick(&HOST_POOL).to_string()
-    };
-    Rq { ws: rng.chance(2, 5), hostp, host, target }
-}
-
-fn ops_json(ops: &[Op]) -> Value {
-    let sub = |so: &SubOp| match so {
-        SubOp::Route(p) => json!({"op": "route", "p": unsyms(p)}),
-        SubOp::Ws(p) => json!({"op": "ws", "p": unsyms(p)}),
-    };
-    Value::Array(
-        ops.iter()
-            .map(|o| match o {
-                Op::Route(p) => json!({"op": "route", "p": unsyms(p), "h": [], "sub": []}),
-                Op::Ws(p) => json!({"op": "ws", "p": unsyms(p), "h": [], "sub": []}),
-                Op::Host(h, so) => json!({"op": "host", "p": [], "h": unsyms(h), "sub": so.iter().map(sub).collect::<Vec<_>>()}),
-            })
-            .collect(),
-    )
-}
-
-fn random(napps: usize, nreq: usize, workers: usize) {
-    let mut rng = Rng::from_env();
-    let mut jobs: VecDeque<(usize, Vec<Op>, Vec<Rq>)> = VecDeque::new();
-    for i in 0..napps {
-        let (ops, pool, hpool) = rand_app(&mut rng);
-        let reqs: Vec<Rq> = (0..nreq).map(|_| rand_req(&mut rng, &pool, &hpool)).collect();
-        jobs.push_back((i, ops, reqs));
-    }
-    let jobs = Arc::new(Mutex::new(jobs));
-    let errors = Arc::new(Mutex::new(0u64));
-    let mut hs = vec![];
-    for _ in 0..workers {
-        let (jobs, errors) = (jobs.clone(), errors.clone());
-        hs.push(thread::spawn(move || loop {
-            let (idx, ops, reqs) = match jobs.lock().unwrap().pop_front() {
-                Some(j) => j,
-                None => break,
-            };
-            let tag = format!("Z{}", idx);
-            let run = match start(&ops, &tag) {
-                Ok(r) => r,
-                Err(_) => {
-                    *errors.lock().unwrap() += 1;
-                    continue;
-                }
-            };
-            let mut lines = vec![json!({"t": "app", "ops": ops_json(&ops), "kind": "http", "hostp": false, "host": [], "target": [],
-                "got": {"hit": false, "sub": 0, "idx": 0}})];
-            let mut keep: Option<Conn> = None;
-            for (ri, rq) in reqs.iter().enumerate() {
-                let v = (idx + ri) % 3;
-                let mut flaky = 0u64;
-                let got = ask(run.port, &mut keep, rq, v, &tag, &mut flaky);
-                if let Got::Other(e) = &got {
-                    if e.starts_with("FOREIGN") || e.starts_with("connect") {
-                        *errors.lock().unwrap() += 1;
-                        continue;
-                    }
-                }
-                let g = got_json(&got);
-                lines.push(json!({"t": "req", "ops": [], "kind": if rq.ws { "ws" } else { "http" }, "hostp": rq.hostp, "host": unsyms(&rq.host),
-                    "target": unsyms(&rq.target), "got": {"hit": g["hit"], "sub": g["sub"], "idx": g["idx"]}}));
-            }
-            drop(keep);
-            if !stop(run) {
-                *errors.lock().unwrap() += 1000000;
-            }
-            let stdout = std::io::stdout();
-            let mut l = stdout.lock();
-            for x in lines {
-                let _ = writeln!(l, "{}", x);
-            }
-        }));
-    }
-    for h in hs {
-        let _ = h.join();
-    }
-    eprintln!("{}", json!({"summary": true, "apps": napps, "tool_errors": *errors.lock().unwrap() % 1000000, "unstopped": *errors.lock().unwrap() / 1000000}));
 }
 
 fn main() {
-    quiet_panics();
-    let a: Vec<String> = std::env::args().collect();
-    let flag = |name: &str| a.iter().position(|x| x == name).and_then(|i| a.get(i + 1)).cloned();
-    let workers: usize = flag("--workers").and_then(|s| s.parse().ok()).unwrap_or(6);
-    match a.get(1).map(|s| s.as_str()) {
-        Some("replay") => replay(flag("--variants").as_deref() == Some("all"), workers),
-        Some("random") => random(a[2].parse().unwrap(), a[3].parse().unwrap(), workers),
-        _ => {
-            eprintln!("usage: routing replay [--variants one|all] [--workers N] | routing random <apps> <requests> [--workers N]");
-            std::process::exit(2)
-        }
-    }
+    common::run_main::<Running>();
 }
